@@ -1,12 +1,17 @@
 ----------------------------- MODULE IpDict -----------------------------
 (* C19  IP dictionaries report exact membership  (bfe_util/ipdict).               *)
 (*                                                                                *)
-(* Address domain: two families, n \in 0..A in each.  key(6,n) = n is the IPv6    *)
-(* address ::n, key(4,n) = A+1+n is the IPv4 address 0.0.0.n (in 16-byte order    *)
-(* every ::n is below every IPv4-mapped address, as in the code).  Loaded ranges  *)
-(* and singles use n \in 0..A-1, so the address just above the domain is probed   *)
-(* as well and "range starts at the zero address of the family" is in the domain. *)
-(* A range never crosses the family boundary (InsertPair rejects mixed pairs).    *)
+(* Address domain: ONE ordered 128-bit space, as the code has it (every address is  *)
+(* compared in its 16-byte form, IPv4 a.b.c.d being ::ffff:a.b.c.d).  Three zones of  *)
+(* A+1 consecutive keys each, in 16-byte order:                                       *)
+(*   L  keys 0 .. A          IPv6  ::n              below the IPv4-mapped block       *)
+(*   V  keys A+1 .. 2A+1     IPv4  0.0.0.n  (= ::ffff:0.0.0.n)   the mapped block     *)
+(*   H  keys 2A+2 .. 3A+2    IPv6  ::1:0:0:n        above the IPv4-mapped block       *)
+(* Ranges and singles are loaded over n < A of each zone, so the address just above   *)
+(* each zone is probed too and both zero addresses (::, 0.0.0.0) can start a range.   *)
+(* InsertPair accepts a pair iff both ends are IPv4 or both are not: IPv4 ranges stay *)
+(* inside V, IPv6 ranges lie below V, above V, or STRADDLE it (lo in L, hi in H) and   *)
+(* then contain every IPv4 address.                                                   *)
 (*                                                                                *)
 (* Layer P: Contains.  Layer M: IPItems.Sort (descending sort, mergeItems with    *)
 (* its zero-address markers, second sort, truncate) and IPTable.Search (binary    *)
@@ -17,9 +22,10 @@ CONSTANTS A,        \* loaded addresses per family: 0..A-1
           MaxR,     \* max number of ranges (a sequence: insertion order is an input)
           MaxS      \* max number of singles (a multiset: non-decreasing sequence)
 
-Keys     == 0..(2 * A + 1)                 \* probe domain (n = A is the "one above" address)
-Fam(k)   == IF k <= A THEN 6 ELSE 4
-Num(k)   == IF k <= A THEN k ELSE k - (A + 1)
+Keys     == 0..(3 * A + 2)                 \* probe domain (n = A of a zone is its "one above" address)
+IsV4(k)  == k >= A + 1 /\ k <= 2 * A + 1
+Fam(k)   == IF IsV4(k) THEN 4 ELSE 6
+Num(k)   == k % (A + 1)
 Loadable == {k \in Keys : Num(k) < A}
 Zero6    == 0
 Zero4    == A + 1
@@ -49,7 +55,12 @@ SortDesc(s) == IF s = <<>> THEN <<>> ELSE Ins(SortDesc(Tail(s)), s[1])
 
 Marker   == <<Zero6, Zero6>>
 IsZ6(e)  == e[2] = Zero6
-IsZ(e)   == e[2] = Zero6 \/ e[2] = Zero4     \* endIP.Equal(IPv6zero) || endIP.Equal(IPv4zero)
+\* The code tests endIP.Equal(IPv6zero) || endIP.Equal(IPv4zero): besides the markers it also skips a
+\* real pair 0.0.0.0-0.0.0.0 (the package's tests pin that convention).  Inside one family that is
+\* harmless; nested in an IPv6 range that straddles the IPv4-mapped block the pair stays unmerged and
+\* shadows the wide range in Search (open finding F-C19-2).  The model has the intended behaviour:
+\* only the marker is skipped.
+IsZ(e)   == e[2] = Zero6
 
 \* checkMerge(i, j): <<items', mergedNum>>
 CheckMerge(it, i, j) ==
